@@ -26,7 +26,8 @@ ASSUMPTIONS = ['tolerance 1e-7 x natural scale of the output (price scale, or 10
                'positions before the first full window are not judged (conventions differ)']
 MIN_OBS = {'triples': 3000, 'reference_comparisons': 3000, 'recurrence_checks': 600, 'decayed_value_checks': 300,
            'ma_dispatch_checks': 300, 'invariant_checks': 3000, 'homogeneity_checks': 600,
-           'stage_parameter_checks': 300, 'stoch_with_different_stage_types': 50}
+           'stage_parameter_checks': 300, 'stoch_with_different_stage_types': 50,
+           'series_input_checks': 300}
 SHARD_TIMEOUT = 2400
 JOB_TIMEOUT = 900
 
@@ -229,6 +230,16 @@ def run_job(job):
                     sf2 = ta.stochf(X, p, sd, md, sequential=True)
                     J.same('stochf:k:stages', sf2.k, rawk, 100.0, counter='stage_parameter_checks')
                     J.same('stochf:d:stages', sf2.d, R[md](rawk, sd), 100.0, counter='stage_parameter_checks')
+                    # %K does not depend on how %D is smoothed, whatever average type the second stage uses
+                    for mt_ in (1, 3, 12, 5):
+                        try:
+                            sfm = ta.stochf(X, p, sd, mt_, sequential=True)
+                            som = ta.stoch(X, p, sk, mk, sd, mt_, sequential=True)
+                        except Exception:
+                            J.c('stoch_stage_type_raises')
+                            continue
+                        J.same(f'stochf:k:d_type_{mt_}', sfm.k, rawk, 100.0, counter='stage_parameter_checks')
+                        J.same(f'stoch:k:d_type_{mt_}', som.k, k2, 100.0, counter='stage_parameter_checks')
                     # non-sequential results are the last elements of the series
                     so1 = ta.stoch(X, p, sk, mk, sd, md, sequential=False)
                     for nm_, a1, a2 in (('k', so1.k, so2.k[-1]), ('d', so1.d, so2.d[-1])):
@@ -488,6 +499,23 @@ def run_job(job):
                     s2 = f(X, source_type=st, sequential=False) if mt in NO_PERIOD else f(X, p, source_type=st, sequential=False)
                     if indlib.equal_values(np.array([s1], dtype=float), np.array([s2], dtype=float), rel=0.0, absl=0.0) is not None:
                         J.bad(f'ma:{mt}:{nm}:single', f'ma(matype={mt}) non-sequential {s1!r} != {nm} {s2!r}')
+                    # the same through a plain series (contiguous float64, as a strategy hands its own numbers over): same
+                    # dispatch, and the caller's array comes back untouched
+                    x1 = np.ascontiguousarray(x, dtype=np.float64).copy()
+                    x1_before = x1.copy()
+                    x2 = x1.copy()
+                    try:
+                        d1 = f(x2, sequential=True) if mt in NO_PERIOD else f(x2, p, sequential=True)
+                        v1 = ta.ma(x1, p, matype=mt, sequential=True)
+                    except Exception:
+                        J.c('series_input_raises')
+                    else:
+                        J.c('series_input_checks')
+                        if not (np.array_equal(x1, x1_before, equal_nan=True) and np.array_equal(x2, x1_before, equal_nan=True)):
+                            J.bad(f'input_modified:ma:{mt}:{nm}', f'{nm} / ma(matype={mt}) wrote into the series it was given '
+                                                                  f'(period {p})')
+                        elif indlib.equal_values(np.asarray(v1, dtype=float), np.asarray(d1, dtype=float), rel=0.0, absl=0.0) is not None:
+                            J.bad(f'ma:{mt}:{nm}:series', f'ma(series, period={p}, matype={mt}) differs from {nm}(series, {p})')
             elif job['group'] == 'homogeneity':
                 for lam in (1e-4, 3.0, 1e4):
                     Y = X.copy()
@@ -527,7 +555,7 @@ def run_job(job):
 def make_jobs(tier, seed):
     rng = random.Random(150000 + seed)
     jobs = []
-    kinds = ['walk', 'trend', 'constant', 'monotone', 'alternating', 'huge', 'tiny', 'tiny', 'flat', 'spikes', 'gappy', 'lattice', 'zerovol', 'outside', 'volspike', 'ties']
+    kinds = ['walk', 'trend', 'constant', 'monotone', 'alternating', 'huge', 'tiny', 'tiny', 'flat', 'spikes', 'gappy', 'lattice', 'zerovol', 'outside', 'volspike', 'ties', 'quietstart']
     plan = {'window': (96, 24), 'recursive': (32, 6), 'ma': (24, 16), 'homogeneity': (24, 16)} if tier == 'quick' else \
         {'window': (3600, 60), 'recursive': (1440, 12), 'ma': (900, 40), 'homogeneity': (900, 40)}
     for group, (njobs, n) in plan.items():
